@@ -8,6 +8,7 @@ import ScnrVerif.Model.World
 import ScnrVerif.Model.Build
 import ScnrVerif.Model.Json
 import ScnrVerif.Model.Dot
+import ScnrVerif.Model.Minimize
 import Std.Data.HashMap
 /-!
 # Line-protocol driver for the executable model (`lake exe scnr_model < case.in`)
@@ -675,6 +676,20 @@ def step (st : DState) (line : String) : DState × Option String :=
         else
           (st, some ("\n".intercalate (runEquiv X Y reps [0] (normP pats) false "equiv")))
     | _, _ => (st, some "bad-op")
+  | ["minimize"] =>
+    -- track A: the model of Minimizer::minimize on the logged input against the logged output,
+    -- state by state, and the executable check of the final partition (hypothesis of the theorem)
+    let A := st.aux.getD 0 emptyDfa
+    let B := st.aux.getD 1 emptyDfa
+    let M := minimize A
+    let model := if M.trans == B.trans && M.ends == B.ends && M.prio == B.prio then "minimize same"
+               else if M.trans.length != B.trans.length then s!"minimize DIFF states {M.trans.length} vs {B.trans.length}"
+               else if M.ends != B.ends then "minimize DIFF end states"
+               else "minimize DIFF transitions"
+    let spec := if A.trans.length > 3000 then "S ok (partition check skipped: automaton too large)"
+      else if goodPartitionCheck A (finalPartition A) then "S ok final partition is a stable, homogeneous, disjoint cover"
+      else "S FAIL the partition the refinement ends with is not a stable homogeneous disjoint cover: the quotient theorem does not apply"
+    (st, some (model ++ "\n" ++ spec))
   | ["idbits", sb, gb] =>
     (st, some (match sb.toNat?, gb.toNat? with
       | some sb, some gb =>
